@@ -364,3 +364,54 @@ func VH_C17_keyfile() {
 	}
 	vReach("end")
 }
+
+// H-C17-maxlen: TLV length fields are 16 bits wide: for extra-symmetric-key
+// usage data and SMP questions around the 65535-byte limit either the call is refused or the
+// emitted TLV's length field equals the length of its value - it is never
+// silently truncated.  (Concrete keys: only the lengths matter here.)
+//
+// vh: prop=C17 expect=end unwind=200000 timeout=60000 maxsteps=400000000
+func VH_C17_maxlen() {
+	vhUseSmallGroup()
+	r := vhRatchet{oA: 2, tA: 2, oB: 2, tB: 2}
+	a, _ := vhEncryptedPair(true, r)
+	vhNoHeartbeat(a, a)
+	fill := func(n int, b byte) []byte {
+		out := make([]byte, n)
+		for i := range out {
+			out[i] = b
+		}
+		return out
+	}
+	k := &a.c.keys
+	p1, p2 := fill(40, 3), fill(40, 5)
+	k.ourCurrentDHKeys = dhKeyPair{pub: vhPub(p2), priv: secretKeyValue(p2)}
+	k.ourPreviousDHKeys = dhKeyPair{pub: vhPub(p1), priv: secretKeyValue(p1)}
+	k.theirCurrentDHPubKey = vhPub(fill(40, 7))
+	k.theirPreviousDHPubKey = nil
+	a.c.Rand = vhConstRand(0x42)
+	if vChoose("api", 2) == 1 {
+		// SMP question: the value is question, NUL, count and six MPIs
+		a.c.smp.state = smpStateExpect1{}
+		qn := []int{60000, 65535, 65536, 70000}[vChoose("qlen", 4)]
+		tl, err := a.c.smp.state.startAuthenticate(a.c, string(fill(qn, 'q')), []byte("s"))
+		vObserve("maxlen-q", qn, err == nil, len(tl))
+		if err == nil {
+			for _, t := range tl {
+				vAssert("question-tlv-length-matches", int(t.tlvLength) == len(t.tlvValue))
+			}
+		} else {
+			vAssert("refused-question-leaves-smp-idle", a.c.smp.state.identity() == smpStateExpect1{}.identity())
+		}
+		vAssert("short-question-accepted", vImplies(qn == 60000, err == nil))
+		vReach("end")
+		return
+	}
+	n := 65535 - 4 + vChoose("over", 3) - 1 // one below the limit, at it, one above
+	ud := fill(n, 'u')
+	_, msgs, err := a.c.UseExtraSymmetricKey(7, ud)
+	vObserve("maxlen-x", n, err == nil, len(msgs))
+	vAssert("usage-data-over-the-limit-refused", vImplies(n+4 > 65535, err != nil))
+	vAssert("usage-data-within-the-limit-accepted", vImplies(n+4 <= 65535, vAll(err == nil, len(msgs) == 1)))
+	vReach("end")
+}
